@@ -569,6 +569,139 @@ def special_docs(rng):
     return out
 
 
+def objstm_pdf(nmembers, pad=0):
+    """PDF 1.5 written directly: one uncompressed object stream with nmembers members (all referenced from the catalog),
+    a content stream with `pad` bytes of comment padding, an unfiltered xref stream with /W [1 4 3]"""
+    out = bytearray(b"%PDF-1.5\n%\xbf\xf7\xa2\xfe\n")
+    offs = {}
+    first_m = 6
+    stm_num = first_m + nmembers
+    xref_num = stm_num + 1
+    content = b"BT /F1 12 Tf 72 720 Td (M) Tj ET\n" + (b"%" + b"x" * 62 + b"\n") * (pad // 64) + b"%" + b"y" * (pad % 64) + b"\n"
+    objs = {1: D(Type=N("Catalog"), Pages=Ref(2), Members=[Ref(first_m + i) for i in range(nmembers)]),
+            2: D(Type=N("Pages"), Count=1, Kids=[Ref(3)], MediaBox=[0, 0, 612, 792]),
+            3: D(Type=N("Page"), Parent=Ref(2), Contents=Ref(4), Resources=D(Font=D(F1=Ref(5)))),
+            4: Stream({}, content),
+            5: D(Type=N("Font"), Subtype=N("Type1"), BaseFont=N("Helvetica"))}
+    for n in sorted(objs):
+        offs[n] = len(out)
+        out += pdfgen.ser_indirect(n, objs[n])
+    bodies, pairs, pos = [], [], 0
+    for i in range(nmembers):
+        b = b"<< /I %d >>\n" % i
+        pairs.append(b"%d %d\n" % (first_m + i, pos))
+        bodies.append(b)
+        pos += len(b)
+    header = b"".join(pairs)
+    offs[stm_num] = len(out)
+    out += pdfgen.ser_indirect(stm_num, Stream({b"Type": N("ObjStm"), b"N": nmembers, b"First": len(header)}, header + b"".join(bodies)))
+    xoff = len(out)
+    offs[xref_num] = xoff
+    size = xref_num + 1
+    ent = bytearray(b"\x00" + (0).to_bytes(4, "big") + (65535).to_bytes(3, "big"))
+    for n in range(1, size):
+        if n in offs:
+            ent += b"\x01" + offs[n].to_bytes(4, "big") + b"\x00\x00\x00"
+        else:
+            ent += b"\x02" + stm_num.to_bytes(4, "big") + (n - first_m).to_bytes(3, "big")
+    out += pdfgen.ser_indirect(xref_num, Stream({b"Type": N("XRef"), b"Size": size, b"W": [1, 4, 3], b"Root": Ref(1)}, bytes(ent)))
+    out += b"startxref\n%d\n%%%%EOF\n" % xoff
+    return bytes(out)
+
+
+def startxref_of(path):
+    with open(path, "rb") as f:
+        f.seek(max(0, os.path.getsize(path) - 64))
+        m = re.search(rb"startxref\n(\d+)\n%%EOF\n\Z", f.read())
+    return int(m.group(1)) if m else None
+
+
+def preserved_qdf(wd, tag, nmembers, pad=0, target=None):
+    """`qpdf --qdf --object-streams=preserve` of objstm_pdf; with target: the padding is tuned until the xref stream object
+    (whose offset sizes /W field 1) sits exactly at byte `target` of the QDF file. Returns path or None."""
+    src = os.path.join(wd, tag + ".pdf")
+    q = os.path.join(wd, tag + ".qdf")
+    for _ in range(8):
+        open(src, "wb").write(objstm_pdf(nmembers, pad))
+        rc, so, se = common.run_qpdf(["--static-id", "--qdf", "--object-streams=preserve", src, q])
+        if rc != 0:
+            return None
+        if target is None:
+            return q
+        got = startxref_of(q)
+        if got == target:
+            return q
+        if got is None or pad + target - got < 0:
+            return None
+        pad += target - got
+    return None
+
+
+def show_xref(path):
+    rc, so, se = common.run_qpdf(["--show-xref", path])
+    return rc, [l for l in so.decode("latin-1").split("\n") if l]
+
+
+def part_boundaries(chk, runner, wd, tie):
+    """object-stream member counts and offsets that straddle the byte-width boundaries of the /W fields fix-qdf chooses"""
+    quick = chk.tier == "quick"
+    cases = []      # (tag, what, qdf path)
+    for n in [1, 2, 255, 256, 257, 258] + ([] if quick else [65535, 65536, 65537]):
+        q = preserved_qdf(wd, "wm%d" % n, n)
+        if q:
+            cases.append(("members=%d" % n, q))
+    for t in [65535, 65536] + ([] if quick else [65534, 65537, 2 ** 24 - 1, 2 ** 24, 2 ** 24 + 1]):
+        q = preserved_qdf(wd, "wo%d" % t, 3, pad=max(0, t - 1200), target=t)
+        if q:
+            cases.append(("xref stream at offset %d" % t, q))
+        else:
+            chk.cov.setdefault("boundary_targets_not_reached", []).append(t)
+    # every file also with an edit that moves everything behind the content stream by 1 and by 300 bytes, and (members)
+    # with the stale pair lines / header numbers garbled
+    files = []
+    for what, q in cases:
+        files.append((what, "unedited", q, q))
+        data = open(q, "rb").read()
+        k = data.find(b"BT /F1 12 Tf")
+        for ins in (1, 300):
+            e = q[:-4] + "_ins%d.qdf" % ins
+            open(e, "wb").write(data[:k] + b"%" + b"e" * (ins - 1) + data[k:] if ins > 1 else data[:k] + b" " + data[k:])
+            files.append((what, "insert %d byte(s) into the page content stream" % ins, e, q))
+    rb = run_both(runner, [f[2] for f in files], wd, "w")
+    small = [i for i, f in enumerate(files) if os.path.getsize(rb[i][1]) <= MAXSIZE]
+    sr = dict(zip(small, filecheck.strict_read([rb[i][1] for i in small])))
+    nontriv = set()
+    for i, ((what, edit, path, orig), (ist, ipath, mst, mpath)) in enumerate(zip(files, rb)):
+        case = {"input": "harness/c17.py objstm_pdf", "boundary": what, "edit": edit, "qdf_file": path,
+                "argv": ["qpdf", "--static-id", "--qdf", "--object-streams=preserve", "in.pdf", "out.qdf"], "then": ["fix-qdf", "out.qdf"]}
+        if ist != mst or not same_file(ipath, mpath):
+            tie.append(dict(case, stage="width boundary", implementation=ist, model=mst))
+        if ist != "0":
+            chk.violation(dict(case, kind="property-fails-on-implementation", why="fix-qdf fails: " + ist), signature="boundary-exit")
+            continue
+        if i in sr and not sr[i]["ok"]:
+            chk.violation(dict(case, kind="property-fails-on-implementation", why="the repaired file is not strictly well-formed: " + filecheck.ERR.get(sr[i]["code"], str(sr[i]["code"])),
+                               strict_reader=sr[i]), signature="boundary-strict:%s" % sr[i]["code"])
+            continue
+        rc0, x0 = show_xref(orig)
+        rc1, x1 = show_xref(ipath)
+        comp0 = [l for l in x0 if "compressed; stream" in l and "uncompressed" not in l]
+        comp1 = [l for l in x1 if "compressed; stream" in l and "uncompressed" not in l]
+        bad = None
+        if rc0 != 0 or rc1 != 0:
+            bad = "qpdf --show-xref exits %d / %d" % (rc0, rc1)
+        elif edit == "unedited" and x0 != x1:
+            bad = "qpdf --show-xref differs before/after fix-qdf of the unedited file: %s" % [(a, b) for a, b in zip(x0, x1) if a != b][:2]
+        elif comp0 != comp1 or len(x0) != len(x1):
+            bad = "compressed-object entries differ before/after: %s" % [(a, b) for a, b in zip(comp0, comp1) if a != b][:2]
+        if bad:
+            chk.violation(dict(case, kind="property-fails-on-implementation", why=bad), signature="boundary-xref")
+            continue
+        nontriv.add((what, edit))
+    chk.count("width-boundaries", len(files), nontriv, samples=[{"boundary": f[0], "edit": f[1]} for f in files[:3]])
+    chk.cov["parts"]["width-boundaries"]["strictly_read"] = len(small)
+
+
 def finding_docs():
     """input of known finding C17-F1 and the inputs of the repaired C17-F2 (regression)"""
     out = []
@@ -672,7 +805,8 @@ def run(chk):
                        "without warning) x object-streams {disable, preserve, generate} x QDF sub-options; on each: layout recogniser, identity and "
                        "idempotence of the real fix-qdf, model = binary byte for byte; then edit scripts of 1..6 layout-preserving edits (stream bytes, "
                        "dictionary keys, comments, stale numbers, appended objects): edited file passes the layout recogniser, model = binary, the repaired "
-                       "file is strictly valid and denotes the edited document, repair is idempotent; plus layout-breaking edits (fatal paths): model = binary. "
+                       "file is strictly valid and denotes the edited document, repair is idempotent; plus layout-breaking edits (fatal paths): model = binary; plus preserved object streams with 255..258 (thorough: 65535..65537) members and files whose "
+                       "xref stream sits at offset 65535/65536 (thorough: 2^24-1..2^24+1), unedited and shifted by 1 / 300 bytes: model = binary, strict reader, qpdf --show-xref before = after. "
                        "non-trivial = distinct (input, options, edit script) whose repair completed")
     # ---- inputs
     inputs = []
@@ -878,6 +1012,9 @@ def run(chk):
                         "file_b64": base64.b64encode(open(bp, "rb").read()).decode() if os.path.getsize(bp) < 60000 else None, "implementation": ist, "model": mst})
     chk.count("layout-breaking", len(bcases), nontriv, samples=[{"edit": c[2]} for c in bcases[:3]])
     chk.cov["parts"]["layout-breaking"]["outcomes"] = outcomes
+
+    # ---- /W width boundaries
+    part_boundaries(chk, runner, wd, tie)
 
     # ---- QDF-form files of the repository's test suite (many hand-edited): model = binary
     rq = []
